@@ -285,7 +285,11 @@ def check_path(P, ctx, rec, op, nbits, nchans, prm, label, budget, which="viol",
         return 0
     conds = [c for _, c in viol]
     clean = False
-    if not conds or ctx.check(z3.Or(conds)) == z3.unsat:
+    try:
+        all_hold = not conds or ctx.check(z3.Or(conds)) == z3.unsat
+    except Inconclusive:
+        all_hold = False        # the disjunction was too hard: decide the obligations one by one below
+    if all_hold:
         clean = True
         for name, _ in viol:
             P.obligation(f"{label}/{name}", "holds")
@@ -358,9 +362,9 @@ def items_for(tier, which="viol"):
                     continue
                 for nfiles in ((1,) if quick else (1, 2)):
                     for none in ((False,) if quick else (False, True)):
-                        # measured: 4 blocks of sub-byte data over 2 files leave z3 undecided (> 180 s per query) and the
-                        # whole tier at over an hour; those configurations explore 3 blocks
-                        nb = 3 if (nbits < 8 and nfiles >= 2) else nblocks
+                        # measured (twice, idle machine): 4 blocks of sub-byte data leave single z3 queries undecided after
+                        # 60 s + 180 s and the whole tier at about an hour; sub-byte configurations explore 3 blocks
+                        nb = 3 if nbits < 8 else nblocks
                         items.append((op, nbits, nchans, nfiles, none, prm, nb, 2 if quick else 10, 240 if quick else 1500, which))
     return items
 
